@@ -20,6 +20,13 @@ CHECKS = {
              'encoded, tokenised by an independent tokenizer and parsed back; the finite table space is enumerated '
              'completely, open-ended segments up to N indices.',
         note='trusts er7ref tokenizer and tables.py; witness literal per base datatype'),
+    'C03': dict(
+        technique='runtime monitoring: conservation check over unique-token messages (reference tokenizer on input and output)',
+        category='exploration', design='DESIGN.md §4 C03',
+        text='Messages made of in-structure, foreign, Z and repeated segment lines with fields/components beyond the defined '
+             'counts are parsed with find_groups on and off; every leaf is a unique token, so any loss, duplication or '
+             'reordering of segments or leaves is attributed directly by comparing tokenised input and output.',
+        note='trusts er7ref tokenizer; an HL7apyException counts as surfaced'),
     'C06': dict(
         technique='runtime monitoring: icontract post-condition on the real TextualDataType.to_er7 + reference escaper over exhaustive string grids',
         category='exploration', design='DESIGN.md §4 C06',
@@ -35,6 +42,14 @@ CHECKS = {
              'time-of-day, offset and calendar grids and over-long values, for every version and both levels; an independent '
              'HL7 grammar decides membership, re-encoding is compared with the input text / number.',
         note='trusts lexref; strings HL7 does not settle are not judged for acceptance'),
+    'C15': dict(
+        technique='runtime monitoring: exception-class monitor at the entry points under a seeded mutation fuzzer',
+        category='exploration', design='DESIGN.md §4 C15',
+        text='Valid messages of all versions (generated from the structure tables) are mutated (truncation at every byte, '
+             'delimiter edits, header surgery, garbled/Z segment names, CR/LF variants, junk) and fed to parse_message '
+             '(both levels, find_groups on/off) and get_message_type; whatever parses must encode and validate to a report. '
+             'Leaks are keyed by (stage, exception type, innermost hl7apy function).',
+        note='allowed: result, HL7apyException subclass, ValueError under STRICT'),
 }
 
 ORDER = sorted(CHECKS)
